@@ -5,15 +5,19 @@ go 1.23
 toolchain go1.23.5
 
 require (
+	golang.org/x/crypto v0.31.0
+	golang.org/x/image v0.23.0
+	golang.org/x/mod v0.22.0
+	golang.org/x/net v0.33.0
+	golang.org/x/sync v0.10.0
+	golang.org/x/sys v0.28.0
 	golang.org/x/text v0.21.0
+	golang.org/x/tools v0.28.0
+	mellium.im/reader v0.1.0
+	mellium.im/sasl v0.3.2
+	mellium.im/xmlstream v0.15.4
 	mellium.im/xmpp v0.0.0
 	pgregory.net/rapid v1.3.0
-)
-
-require (
-	golang.org/x/net v0.33.0 // indirect
-	mellium.im/reader v0.1.0 // indirect
-	mellium.im/xmlstream v0.15.4 // indirect
 )
 
 replace mellium.im/xmpp => /repo
